@@ -111,7 +111,7 @@ class Project(object):
 
         module = None  # type: SourceModule | ImportedModule | None
         if not filename:
-            if name in sys.modules:
+            if name in sys.modules and not self._parent_shadowed(name):
                 module = ImportedModule(sys.modules[name])
         else:
             if name in self.dyn_modules or not is_source:
@@ -145,6 +145,18 @@ class Project(object):
         except ImportError:
             pass
         return None
+
+    def _parent_shadowed(self, name):
+        # type: (str) -> bool
+        """A loaded `pkg.child` is not what `pkg.child` means here when another file is found for `pkg`"""
+        parent = name.rpartition('.')[0]
+        if not parent:
+            return False
+        pfile = self._find_module_file(parent)[0]
+        loaded = getattr(sys.modules.get(parent), '__file__', None)
+        if not pfile or not loaded:
+            return False
+        return os.path.realpath(pfile) != os.path.realpath(loaded) or self._parent_shadowed(parent)
 
     def _find_module_file(self, name):
         # type: (str) -> tuple[str | None, bool]
